@@ -250,3 +250,30 @@ def bounded_key_validation(p):
     got = expect(mk)
     S.check(got[0] == 'ok', dict(case=name, expected='accepted'), f'{name}: building the pipeline gave {got}', cls=name)
   return S.result()
+
+
+def bounded_batch_operator(p):
+  """`.batch(k)` (the sixth operator of the grammar): consecutive records are collected into lists of k (the last one shorter),
+  per output key when the preceding operator names output keys; nothing is lost, duplicated or reordered."""
+  S = Search(p, dict(streams='0..6 scalars / dict records', batch_sizes='0..4', before='nothing | select | select renamed | apply', after='nothing | apply(sum)'))
+  T = transform.TreeTransform
+  def chunks(xs, k):
+    return [[x] for x in xs] if k <= 0 else [xs[i:i + k] for i in range(0, len(xs), k)]
+  for n in range(0, 7):
+    xs = list(range(1, n + 1))
+    recs = [{'a': i, 'b': 10 * i} for i in xs]
+    for k in range(0, 5):
+      cases = [
+          ('batch', lambda: T().batch(k), xs, [list(c) for c in chunks(xs, k)]),
+          ('batch | apply(sum)', lambda: T().batch(k).apply(fn=sum), xs, [sum(c) for c in chunks(xs, k)]),
+          ('select(a,b) | batch', lambda: T().select(('a', 'b')).batch(k), recs, [{'a': [r['a'] for r in c], 'b': [r['b'] for r in c]} for c in chunks(recs, k)]),
+          ('select(a) | batch', lambda: T().select('a').batch(k), recs, [{'a': [r['a'] for r in c]} for c in chunks(recs, k)]),
+          ('select(a->z) | batch', lambda: T().select('a', output_keys='z').batch(k), recs, [{'z': [r['a'] for r in c]} for c in chunks(recs, k)]),
+          ('apply(a+b->c) | batch', lambda: T().apply(fn=f_sum, input_keys=('a', 'b'), output_keys='c').batch(k), recs, [{'c': [r['a'] + r['b'] for r in c]} for c in chunks(recs, k)]),
+      ]
+      for name, mk, stream, exp in cases:
+        before = copy.deepcopy(stream)
+        got = expect(lambda: list(mk().make().iterate(stream)))
+        if not S.check(got == ('ok', exp) and stream == before, dict(chain=name, n=n, batch_size=k), f'{name} with batch_size={k} over {before}: {got}; reference {exp}', cls=name):
+          return S.result()
+  return S.result()
